@@ -174,7 +174,7 @@ func Cases(words ...string) G {
 
 // Slot tokens: what a single numeric run, letter run or separator of a base version is replaced by.
 var (
-	SlotNums  = []string{"0", "1", "2", "9", "10", "11", "99", "100", "01", "010", "007", "08", "65535", "65536", "65537", "131072", "20240101", "2147483647", "2147483648", "4294967296", "9007199254740993", "9223372036854775806", "9223372036854775807", "9223372036854775808", "18446744073709551616"}
+	SlotNums  = []string{"0", "1", "2", "9", "10", "11", "99", "100", "01", "010", "007", "08", "65535", "65536", "65537", "131072", "20240101", "2147483647", "2147483648", "4294967296", "9007199254740992", "9007199254740993", "9223372036854775806", "9223372036854775807", "9223372036854775808", "18446744073709551616"}
 	SlotWords = []string{"a", "b", "z", "A", "Z", "x", "X", "v", "alpha", "beta", "rc", "RC", "Rc", "dev", "pre", "post", "p", "r", "and", "or", "candidate", "prerelease", "final", "ga", "sp", "snapshot", "SNAPSHOT", "git", "cvs", "foo", "m", "cr"}
 	SlotSeps  = []string{".", "-", "_", "+", "~", "^", ":", "!", ""}
 )
